@@ -203,6 +203,11 @@ def run_small(seed, n):
             else:
                 cols[nm], descs[nm] = gen_column(rng, nrows)
         df = pd.DataFrame(cols, columns=names)
+        if nrows > 1 and rng.random() < 0.35:
+            # the row index is irrelevant to the profile: shuffled labels, or REPEATED labels (a
+            # pd.concat of batches, a table indexed by a group label)
+            df.index = (rng.sample(range(1000), nrows) if rng.random() < 0.4
+                        else [rng.randint(0, max(1, nrows // 3)) for _ in range(nrows)])
         r = rng.random()
         if r < 0.35:
             attrs, amode = None, 'None'
